@@ -105,6 +105,9 @@ func hPred(tag string, arity int, full bool) *pb.PredicateV2 {
 		name := uint64(1024)
 		return &pb.PredicateV2{Name: &name, Terms: []*pb.TermV2{{Content: &pb.TermV2_Integer{Integer: 1}}}}
 	}
+	if vChoose(tag+".required", 2) == 1 {
+		return &pb.PredicateV2{Terms: []*pb.TermV2{{Content: &pb.TermV2_Integer{Integer: 1}}}} // required name absent
+	}
 	name := hIndex(tag+".name", full)
 	p := &pb.PredicateV2{Name: &name}
 	n := 1
@@ -118,7 +121,7 @@ func hPred(tag string, arity int, full bool) *pb.PredicateV2 {
 }
 
 func hOp(tag string) *pb.Op {
-	switch vChoose(tag+".op", 4) {
+	switch vChoose(tag+".op", 6) {
 	case 0:
 		return &pb.Op{Content: &pb.Op_Value{Value: hTerm(tag+".v", false, 0)}}
 	case 1:
@@ -127,13 +130,20 @@ func hOp(tag string) *pb.Op {
 	case 2:
 		k := pb.OpBinary_Kind(vInt32(tag + ".bkind"))
 		return &pb.Op{Content: &pb.Op_Binary{Binary: &pb.OpBinary{Kind: &k}}}
-	default:
+	case 3:
 		return &pb.Op{}
+	case 4:
+		return &pb.Op{Content: &pb.Op_Unary{Unary: &pb.OpUnary{}}} // required kind absent
+	default:
+		return &pb.Op{Content: &pb.Op_Binary{Binary: &pb.OpBinary{}}} // required kind absent
 	}
 }
 
 func hRule(tag string, focus string) *pb.RuleV2 {
 	r := &pb.RuleV2{Head: hPred(tag+".h", 1, focus == "head")}
+	if focus == "head" && vChoose(tag+".nohead", 2) == 1 {
+		r.Head = nil // required head absent
+	}
 	r.Body = []*pb.PredicateV2{hPred(tag+".b", 1, focus == "body")}
 	if focus == "expr" {
 		e := &pb.ExpressionV2{}
@@ -167,6 +177,9 @@ func hBlock(tag string, focus string) *pb.Block {
 	}
 	b.Version = &v
 	b.FactsV2 = []*pb.FactV2{{Predicate: hPred(tag+".f", 1, focus == "fact")}}
+	if focus == "fact" && vChoose(tag+".nopred", 2) == 1 {
+		b.FactsV2 = []*pb.FactV2{{}} // required predicate absent
+	}
 	switch focus {
 	case "head", "body", "expr":
 		b.RulesV2 = []*pb.RuleV2{hRule(tag+".r", focus)}
@@ -175,6 +188,11 @@ func hBlock(tag string, focus string) *pb.Block {
 		b.ChecksV2 = []*pb.CheckV2{{Queries: []*pb.RuleV2{q}}}
 	}
 	return b
+}
+
+// hBytes encodes a message the way a party writing bytes by hand can: required fields may be absent.
+func hBytes(m proto.Message) ([]byte, error) {
+	return proto.MarshalOptions{AllowPartial: true}.Marshal(m)
 }
 
 type hSigned struct {
@@ -195,7 +213,7 @@ func hSign(blocks []*pb.Block, seal bool) (*hSigned, bool) {
 	}
 	var lastSeed []byte
 	for i, b := range blocks {
-		bytes, err := proto.Marshal(b)
+		bytes, err := hBytes(b)
 		if err != nil {
 			return nil, false
 		}
@@ -213,7 +231,7 @@ func hSign(blocks []*pb.Block, seal bool) (*hSigned, bool) {
 	} else {
 		c.Proof = &pb.Proof{Content: &pb.Proof_NextSecret{NextSecret: lastSeed}}
 	}
-	data, err := proto.Marshal(c)
+	data, err := hBytes(c)
 	if err != nil {
 		return nil, false
 	}
@@ -295,14 +313,14 @@ func VerifC10Envelope() {
 	lens := [...]int{0, 32, 33, 31}
 	siglens := [...]int{0, 64, 65, 63}
 	mk := func(tag string, b *pb.Block) *pb.SignedBlock {
-		bytes, _ := proto.Marshal(b)
+		bytes, _ := hBytes(b)
 		alg := pb.PublicKey_Algorithm(vInt32(tag + ".alg"))
 		return &pb.SignedBlock{Block: bytes,
 			NextKey:   &pb.PublicKey{Algorithm: &alg, Key: vBytes(tag+".key", lens[vChoose(tag+".keylen", 4)])},
 			Signature: vBytes(tag+".sig", siglens[vChoose(tag+".siglen", 4)])}
 	}
 	good := func(tag string, b *pb.Block) *pb.SignedBlock {
-		bytes, _ := proto.Marshal(b)
+		bytes, _ := hBytes(b)
 		alg := pb.PublicKey_Ed25519
 		return &pb.SignedBlock{Block: bytes, NextKey: &pb.PublicKey{Algorithm: &alg, Key: vWide(tag+".key", 32)}, Signature: vWide(tag+".sig", 64)}
 	}
@@ -330,7 +348,7 @@ func VerifC10Envelope() {
 		id := vUint32("rootkeyid")
 		c.RootKeyId = &id
 	}
-	data, err := proto.Marshal(c)
+	data, err := hBytes(c)
 	if err != nil {
 		return
 	}
@@ -350,7 +368,7 @@ func VerifC10ValidChainBadProof() {
 	vTimerMode(0)
 	h := &hSigned{rootSeed: vWide("aroot", 32)}
 	h.rootPub = ed25519.PublicKey(vPub(h.rootSeed))
-	bytes, _ := proto.Marshal(hBlock("auth", "none"))
+	bytes, _ := hBytes(hBlock("auth", "none"))
 	seed := vWide("aseed", 32)
 	pub := vPub(seed)
 	alg := pb.PublicKey_Ed25519
@@ -358,7 +376,7 @@ func VerifC10ValidChainBadProof() {
 	n := [...]int{0, 1, 31, 33, 64}[vChoose("secretlen", 5)]
 	vLabel("valid chain, next secret of wrong length")
 	c := &pb.Biscuit{Authority: sb, Proof: &pb.Proof{Content: &pb.Proof_NextSecret{NextSecret: vBytes("secret", n)}}}
-	data, err := proto.Marshal(c)
+	data, err := hBytes(c)
 	if err != nil {
 		return
 	}
@@ -403,7 +421,7 @@ func VerifC10Policies() {
 	ap.Rules = []*pb.RuleV2{hRule("pr", foc(0))}
 	ap.Checks = []*pb.CheckV2{{Queries: []*pb.RuleV2{hRule("pc", foc(1))}}}
 	ap.Policies = []*pb.Policy{{Kind: &kind, Queries: []*pb.RuleV2{hRule("pq", foc(2))}}}
-	data, err := proto.Marshal(ap)
+	data, err := hBytes(ap)
 	if err != nil {
 		return
 	}
